@@ -353,6 +353,24 @@ def run(ctx):
             ctx.leanchecker([MODULE])
     with np.errstate(all="ignore"):
         search(ctx)
+        if r is not None:
+            # request-history pass on EXACT solutions (alternatives such as 'Ricci from T' and 'Ricci by contraction' only
+            # agree on solutions of Einstein's equations, so generic smooth fields would not do)
+            hseed = ctx.rng.randrange(10 ** 6)
+            box0 = ((-0.4, -0.3, -0.5), 1.0)
+            for vac, builder, t0, Lam in ((False, metric_random, 0.3, 0.3), (True, metric_kasner, 1.5, 0.0)):
+                ex = Exact(builder(np.random.default_rng(hseed)))
+                cache = {}
+
+                def factory(N, ex=ex, cache=cache, vac=vac, t0=t0, Lam=Lam):
+                    if N not in cache:
+                        fd = make_fd(N, 4, box0)
+                        cache[N] = (fd, ex.evaluate(t0, fd.x, fd.y, fd.z))
+                    fd, E = cache[N]
+                    extra = {} if vac else {"Tdown4": (E["Einsteindown4"] + Lam * E["gdown4"]) / (8 * np.pi)}
+                    return make_rel(fd, E["inputs"], vac, Lam, extra)
+                corecheck.history_pass(ctx, r[2], [k for k in KEYS if k != "gdet"], factory, "C04", Ns=(10, 20),
+                                       max_alts=None if ctx.tier == "thorough" or ctx.broken() else 10)
     ctx.cov["observe_at_keys"] = KEYS
 
 
